@@ -24,6 +24,8 @@ type Unit struct {
 	StepBudget int64 `json:"step_budget,omitempty"`
 	Domain     string `json:"domain,omitempty"` // "quick" or "full"
 	CountFns   bool   `json:"count_fns,omitempty"`
+	// ReplayModel: re-execute exactly one path, the one selected by these variable values
+	ReplayModel map[string]uint64 `json:"replay_model,omitempty"`
 }
 
 type UnitResult struct {
@@ -133,6 +135,10 @@ func runUnit(p *program, solver *interp.Solver, u Unit) (res UnitResult) {
 		x.StepBudget = u.StepBudget
 	}
 	x.SetCountFns(u.CountFns)
+	if u.ReplayModel != nil {
+		x.InitialModel = u.ReplayModel
+		x.PathBudget = 1
+	}
 	interp.Params = u.Params
 	interp.SetSummarise("CharIn", u.Params["nosummary_charin"] == "")
 	setup := p.fn(pkgPath(u.Pkg), "VerifSetup_"+u.Harness)
